@@ -91,15 +91,29 @@ Definition load_enh_old (dr dw : pat) (m : list (str * cred)) (e : enh_user) : l
   put (eu_name e) (mkCred (eu_hash e) r w) m.
 
 (* ---- inbound Topic Alias under the write ACL (connection.go onPublish) ----
-   A PUBLISH carries a topic (Some t) and possibly an alias a > 0, or only an alias (None).  The ACL is
-   consulted for a publish that names its topic; an alias is (re)bound only when that publish was
-   authorised; an alias-only publish is resolved through the table and NOT checked again. *)
+   A PUBLISH carries a topic (Some t) and possibly an alias a > 0, or only an alias (None).  A packet that carries
+   both (re)binds the alias whatever becomes of the message [MQTT-3.3.2.3.4]; the ACL is consulted for EVERY
+   publish on the topic it resolves to, also when it names the topic through an alias. *)
 Inductive averdict := ARouted (t : N) | ADenied | AProtoErr.
 
 Fixpoint alias_get (a : N) (tbl : list (N * N)) : option N :=
   match tbl with [] => None | (x, t) :: r => if N.eqb x a then Some t else alias_get a r end.
 
 Definition alias_pub (allowed : N -> bool) (tbl : list (N * N)) (t : option N) (a : N) : list (N * N) * averdict :=
+  match t with
+  | Some tp =>
+      ((if N.eqb a 0 then tbl else (a, tp) :: tbl), if allowed tp then ARouted tp else ADenied)
+  | None =>
+      match alias_get a tbl with
+      | Some tp => (tbl, if allowed tp then ARouted tp else ADenied)
+      | None => (tbl, AProtoErr)
+      end
+  end.
+
+(* the shape the code had: an alias is (re)bound only when the publish that carries it was authorised and an
+   alias-only publish is not checked again - safe against the ACL, but a refused (topic, alias) packet leaves the
+   alias on its OLD topic: the alias-only publish that follows is routed there *)
+Definition alias_pub_guarded (allowed : N -> bool) (tbl : list (N * N)) (t : option N) (a : N) : list (N * N) * averdict :=
   match t with
   | Some tp =>
       if allowed tp then ((if N.eqb a 0 then tbl else (a, tp) :: tbl), ARouted tp) else (tbl, ADenied)
